@@ -1,6 +1,7 @@
 package loader
 
 import "github.com/lyraproj/pcore/px"
+import "github.com/lyraproj/pcore/verifhook"
 
 type dependencyLoader struct {
 	basicLoader
@@ -29,10 +30,12 @@ func init() {
 func (l *dependencyLoader) LoadEntry(c px.Context, name px.TypedName) px.LoaderEntry {
 	entry := l.basicLoader.LoadEntry(c, name)
 	if entry == nil {
+		verifhook.Point("dependency.before-find")
 		entry = l.find(c, name)
 		if entry == nil {
 			entry = &loaderEntry{nil, nil}
 		}
+		verifhook.Point("dependency.before-set")
 		l.SetEntry(name, entry)
 	}
 	return entry
